@@ -355,6 +355,63 @@ func init() {
 				}
 			}
 		}
+		// (b2) in-place edits of a slice the library has already seen: the result must be that of a fresh slice with the same
+		// contents (nothing may be remembered about a caller's slice beyond the call)
+		for i, c := range w {
+			if c.fn != 0 || len(c.list) < 2 || i%3 != 0 {
+				continue
+			}
+			l := append([]string{}, c.list...)
+			implSat(c.expr, l)
+			j := rng.Intn(len(l))
+			l[j] = genValidTerm().text
+			r2 := implSat(c.expr, l)
+			r3 := implSat(c.expr, append([]string{}, l...))
+			res.Evaluations += 3
+			count("in_place_edits")
+			if r2.String() != r3.String() {
+				fail(failure{Stream: "oracle", What: "after an in-place edit of the caller's slice between two calls, Satisfies answers differently for that slice and for a fresh copy of it", Case: &kase{Expr: c.expr, Allowed: l, Extra: map[string]string{"edited_index": itoa(j), "first_list": hxl(c.list)}}, Impl: r2.String(), Expected: r3.String()})
+				break
+			}
+		}
+		// (b3) CONCURRENT FIRST USE: fresh processes whose very first calls into the library come from many goroutines at
+		// once (lazily built indexes and caches are filled exactly then).  Every goroutine runs the same calls; all results
+		// must equal the sequential ones; a process that dies (fatal error: concurrent map ...) is a failure; the children
+		// are race-detector binaries, so their reports are collected like those of this process.
+		if exe, err := os.Executable(); err == nil {
+			kids := scale(10, 60)
+			for kid := 0; kid < kids; kid++ {
+				m := 40 + rng.Intn(160)
+				perm := rng.Perm(len(w))[:min(m, len(w))]
+				got, crashed, err := runChildPar(exe, w, perm, 4+rng.Intn(28))
+				count("concurrent_first_use_processes")
+				res.Evaluations += len(perm)
+				if crashed != "" {
+					fail(failure{Stream: "oracle", What: "a fresh process whose first calls are made concurrently died: " + crashed, Case: &kase{Expr: w[perm[0]].expr, Allowed: w[perm[0]].list, Extra: map[string]string{"calls": itoa(len(perm))}}, Impl: "process aborted"})
+					break
+				}
+				if err != nil {
+					res.Notes = append(res.Notes, "concurrent-first-use child failed to run: "+err.Error())
+					break
+				}
+				bad := false
+				for k, i := range perm {
+					for _, g := range got[k] {
+						if g != base[i] {
+							fail(failure{Stream: "oracle", What: "concurrent first use of the library in a fresh process: a call returned a different result than the sequential call: " + w[i].String(), Case: &kase{Expr: w[i].expr, Allowed: w[i].list, Extra: map[string]string{"fn": itoa(w[i].fn)}}, Impl: show(g), Expected: show(base[i])})
+							bad = true
+							break
+						}
+					}
+					if bad {
+						break
+					}
+				}
+				if bad {
+					break
+				}
+			}
+		}
 		// (c) concurrency over shared argument slices
 		g := scale(32, 64)
 		for _, procs := range []int{runtime.NumCPU(), 2} {
@@ -447,6 +504,107 @@ func runChild(exe string, w []*call, perm []int) ([]string, error) {
 		resS[i] = unhx(resS[i])
 	}
 	return resS, nil
+}
+
+// runChildPar: a fresh process in which `workers` goroutines, released together, each execute the calls w[perm[..]];
+// returns for every call the distinct results seen, or the tail of stderr if the process died
+func runChildPar(exe string, w []*call, perm []int, workers int) ([][]string, string, error) {
+	type wire struct {
+		Fn   int      `json:"fn"`
+		Expr string   `json:"expr"`
+		List []string `json:"list"`
+		Nil  bool     `json:"nil"`
+	}
+	calls := make([]wire, len(perm))
+	for k, i := range perm {
+		c := w[i]
+		l := make([]string, len(c.list))
+		for j, x := range c.list {
+			l[j] = hx(x)
+		}
+		calls[k] = wire{Fn: c.fn, Expr: hx(c.expr), List: l, Nil: c.list == nil}
+	}
+	in, _ := json.Marshal(calls)
+	cmd := exec.Command(exe, "-exec-par", strconv.Itoa(workers))
+	cmd.Stdin = bytes.NewReader(in)
+	var out, errb bytes.Buffer
+	cmd.Stdout = &out
+	cmd.Stderr = &errb
+	err := cmd.Run()
+	var resS [][]string
+	if uerr := json.Unmarshal(out.Bytes(), &resS); uerr != nil || len(resS) != len(perm) {
+		tail := errb.String()
+		if len(tail) > 600 {
+			tail = tail[:600]
+		}
+		if err != nil {
+			return nil, fmt.Sprintf("%v: %s", err, tail), nil
+		}
+		return nil, "", fmt.Errorf("unreadable child output")
+	}
+	for i := range resS {
+		for j := range resS[i] {
+			resS[i][j] = unhx(resS[i][j])
+		}
+	}
+	return resS, "", nil
+}
+
+func execChildPar(workers int) {
+	type wire struct {
+		Fn   int      `json:"fn"`
+		Expr string   `json:"expr"`
+		List []string `json:"list"`
+		Nil  bool     `json:"nil"`
+	}
+	var calls []wire
+	raw, _ := io.ReadAll(os.Stdin)
+	if err := json.Unmarshal(raw, &calls); err != nil {
+		fmt.Fprintln(os.Stderr, err)
+		os.Exit(2)
+	}
+	cs := make([]*call, len(calls))
+	for k, c := range calls {
+		var l []string
+		if !c.Nil {
+			l = make([]string, len(c.List))
+			for j, x := range c.List {
+				l[j] = unhx(x)
+			}
+		}
+		cs[k] = &call{fn: c.Fn, expr: unhx(c.Expr), list: l}
+	}
+	results := make([][]string, workers)
+	start := make(chan struct{})
+	var wg sync.WaitGroup
+	for g := 0; g < workers; g++ {
+		wg.Add(1)
+		go func(g int) {
+			defer wg.Done()
+			out := make([]string, len(cs))
+			<-start
+			for k := range cs {
+				// every goroutine starts at a different call so that different lookups meet in the first microseconds
+				i := (k + g*7) % len(cs)
+				out[i] = cs[i].run()
+			}
+			results[g] = out
+		}(g)
+	}
+	close(start)
+	wg.Wait()
+	distinctRes := make([][]string, len(cs))
+	for i := range cs {
+		seen := map[string]bool{}
+		for g := 0; g < workers; g++ {
+			if !seen[results[g][i]] {
+				seen[results[g][i]] = true
+				distinctRes[i] = append(distinctRes[i], hx(results[g][i]))
+			}
+		}
+	}
+	b, _ := json.Marshal(distinctRes)
+	os.Stdout.Write(b)
 }
 
 // execChild: the child side of runChild (no generator, no table access: nothing but the calls)
@@ -543,6 +701,31 @@ func families() []family {
 		{"or-later-rewrites", func(n int) (string, []string) { return rep("Apache-2.0-or-later", " AND ", n), []string{"Apache-2.0"} }, scale(128, 512), 0},
 		{"many-spaces", func(n int) (string, []string) { return "MIT" + strings.Repeat(" ", n) + "AND ISC", []string{"MIT", "ISC"} }, scale(65536, 1<<20), 0},
 		{"plus-run", func(n int) (string, []string) { return "MIT" + strings.Repeat("+", n), []string{"MIT"} }, scale(4096, 65536), 0},
+		// chains of DISTINCT terms (LicenseRefs: listed ids run out at ~700) and lists with many redundant entries
+		{"or-chain-distinct-refs", func(n int) (string, []string) {
+			p := make([]string, n)
+			for i := range p {
+				p[i] = "LicenseRef-" + strconv.Itoa(100000+i)
+			}
+			return strings.Join(p, " OR "), []string{"LicenseRef-100000"}
+		}, scale(2048, 8192), 0},
+		{"and-chain-distinct-refs", func(n int) (string, []string) {
+			p := make([]string, n)
+			for i := range p {
+				p[i] = "DocumentRef-d:LicenseRef-" + strconv.Itoa(100000+i)
+			}
+			return strings.Join(p, " AND "), []string{"MIT"}
+		}, scale(2048, 8192), 0},
+		{"redundant-allowed-list", func(n int) (string, []string) {
+			l := make([]string, 0, 2*n)
+			for i := 0; i < n; i++ {
+				l = append(l, "DocumentRef-d:LicenseRef-"+strconv.Itoa(100000+i))
+			}
+			for i := 0; i < n; i++ {
+				l = append(l, []string{"GPL-2.0", "GPL-2.0-only", "MIT", "mit"}[i%4])
+			}
+			return "Apache-2.0", l
+		}, scale(1024, 4096), 0},
 	}
 }
 
@@ -550,6 +733,7 @@ type measurement struct {
 	alloc  uint64
 	dur    time.Duration
 	result string
+	cpu    time.Duration // user+system CPU time of the child process (0 when measured in-process)
 }
 
 // measure runs ONE call in a fresh child process and returns what it allocated.  The child carries a watchdog that
@@ -599,7 +783,11 @@ func measure(fn int, e string, a []string) measurement {
 	if r.Aborted {
 		res = fmt.Sprintf("ABORTED by the watchdog after allocating %d bytes", r.Alloc)
 	}
-	return measurement{r.Alloc, time.Duration(r.Ns), res}
+	m := measurement{alloc: r.Alloc, dur: time.Duration(r.Ns), result: res}
+	if cmd.ProcessState != nil {
+		m.cpu = cmd.ProcessState.UserTime() + cmd.ProcessState.SystemTime()
+	}
+	return m
 }
 
 func allocatedBytes() uint64 {
@@ -670,7 +858,7 @@ func measureInProcess(fn int, e string, a []string) measurement {
 	}
 	d := time.Since(t)
 	runtime.ReadMemStats(&m1)
-	return measurement{m1.TotalAlloc - m0.TotalAlloc, d, r}
+	return measurement{alloc: m1.TotalAlloc - m0.TotalAlloc, dur: d, result: r}
 }
 
 // model-side structure of the input, from the driver's K operation
@@ -721,6 +909,7 @@ func init() {
 		budget := uint64(scale(600, 3000)) << 20
 		for _, f := range families() {
 			var prev [3]uint64
+			var prevCPU [3]time.Duration
 			var prevModel float64
 			doubling := 0
 			steps := 0
@@ -771,6 +960,31 @@ func init() {
 							fail(failure{Stream: "oracle", What: fmt.Sprintf("family %s: doubling n to %d multiplied the allocation of one call by %.2f (%d -> %d bytes); the cost model allows %.2f", f.name, n, g, prev[fn], m.alloc, lim), Case: k, Impl: fmt.Sprintf("x%.2f", g), Expected: fmt.Sprintf("<= x%.2f", lim)})
 							stop = true
 						}
+					}
+					// time: the CPU time of the (single-call) child process.  Doubling n may multiply it by 4 (the quadratic
+					// behaviours the model knows: buffer copies, chains); 6.5 and more over two successive doublings is
+					// cubic or worse.  Only judged where the call dominates the process (>= 0.4 s).
+					if f.step == 0 && prevCPU[fn] > 0 && m.cpu >= 400*time.Millisecond {
+						g := float64(m.cpu) / float64(prevCPU[fn])
+						if r := int(g * 100); r > res.Distribution["max_time_growth_x100_"+f.name] {
+							res.Distribution["max_time_growth_x100_"+f.name] = r
+						}
+						if g > 6.5 {
+							// measure again before judging (scheduling noise)
+							m2 := measure(fn, e, a)
+							if m2.cpu > 0 && m2.cpu < m.cpu {
+								g = float64(m2.cpu) / float64(prevCPU[fn])
+							}
+						}
+						if g > 6.5 {
+							fail(failure{Stream: "oracle", What: fmt.Sprintf("family %s: doubling n to %d multiplied the CPU time of one call by %.1f (%v -> %v): super-quadratic growth", f.name, n, g, prevCPU[fn], m.cpu), Case: k, Impl: fmt.Sprintf("x%.1f", g), Expected: "<= x6.5 (quadratic = x4)"})
+							stop = true
+						}
+					}
+					if m.cpu >= 100*time.Millisecond {
+						prevCPU[fn] = m.cpu
+					} else {
+						prevCPU[fn] = 0
 					}
 					if r := int(float64(m.alloc) / (bound / K) * 100); r > res.Distribution["max_ratio_x100_"+f.name] {
 						res.Distribution["max_ratio_x100_"+f.name] = r
